@@ -54,6 +54,14 @@ func runFmtLike(c *core.Check, chk func(*core.Check, string, map[string]any) boo
 	}
 	streamTLC(c, core.TLCRun{Module: "MC_E1", Consts: map[string]string{"MaxD": hd, "Level2": "\"heredoc\""}, Timeout: minutes(30), KeepVars: []string{"e", "fv", "last"}},
 		func(st core.State) { e1h(c, st) })
+	// size extremes the bounded generators cannot reach (fixed supplementary corpus): deep nesting,
+	// wide alignment columns, long comments
+	for _, src := range sizeCorpus() {
+		c.Count("vectors_replayed", 1)
+		if chk(c, src, map[string]any{"source": src, "kind": "size-corpus"}) {
+			c.Nontrivial(src)
+		}
+	}
 	consts := map[string]string{"MaxItems": "2", "MaxL": "1", "LabelMode": "\"full\""}
 	if c.Tier == "thorough" {
 		consts = map[string]string{"MaxItems": "2", "MaxL": "2", "LabelMode": "\"full\""}
@@ -85,4 +93,26 @@ func runC10(c *core.Check) {
 	c.Rule = "same sources as C09: hclwrite.ParseConfig must load without panic or diagnostics, File.Bytes() must have the source's token sequence and equal Format(source), and the tree must expose exactly the source's attributes, blocks, labels and (per attribute, in order) variable references. Non-trivial = distinct source text"
 	c.Assumes = []string{"expression token comparison is skipped for expressions containing string templates or comments (spacing inside them is significant)"}
 	runFmtLike(c, c10.CheckSource, c10.HandleE1)
+}
+
+func sizeCorpus() []string {
+	var out []string
+	for _, depth := range []int{10, 39, 40, 41, 45, 90} {
+		var sb strings.Builder
+		for i := 0; i < depth; i++ {
+			sb.WriteString(strings.Repeat(" ", i%3) + "b {\n")
+		}
+		sb.WriteString("a = 1\nlonger_name = [\n1,\n2]\n")
+		for i := 0; i < depth; i++ {
+			sb.WriteString("}\n")
+		}
+		out = append(out, sb.String())
+	}
+	for _, width := range []int{30, 79, 80, 81, 100, 200} {
+		long := strings.Repeat("n", width)
+		out = append(out, "a = 1 # c\n"+long+" = 2 # cc\nb = 3\n")
+		out = append(out, "x = 1 "+"# "+strings.Repeat("c", width)+"\nyy = "+strings.Repeat("1", width)+" # d\nz = 3 # e\n")
+		out = append(out, "blk {\n  a = 1\n  "+long+" = {\n    k = 1\n    "+long+"k = 2\n  }\n}\n")
+	}
+	return out
 }
